@@ -163,6 +163,9 @@ class Engine:
                 ok.append(ref == a[1])
             elif a[0] == 'fieldall' and key == a[1]:
                 ok.append(z3.BoolVal(True))
+            elif a[0] == 'each' and key == a[3]:
+                q = z3.Int(fresh_name('q'))
+                ok.append(z3.Exists([q], z3.And(0 <= q, q < a[1], z3.Select(a[2], q) == ref)))
         self.oblige(st, "frame:%s@L%d" % (what, getattr(node, 'lineno', 0)), 'frame', z3.Or(*ok), node)
         for (lalloc, mods, ordn) in f.loop_frames:
             okl = [ref >= lalloc]
@@ -173,6 +176,9 @@ class Engine:
                     okl.append(ref == a[1])
                 elif a[0] == 'fieldall' and key == a[1]:
                     okl.append(z3.BoolVal(True))
+                elif a[0] == 'each' and key == a[3]:
+                    q = z3.Int(fresh_name('q'))
+                    okl.append(z3.Exists([q], z3.And(0 <= q, q < a[1], z3.Select(a[2], q) == ref)))
             self.oblige(st, "loop%d:modifies:%s@L%d" % (ordn, what, getattr(node, 'lineno', 0)), 'frame',
                         z3.Or(*okl), node)
 
@@ -553,7 +559,8 @@ class Engine:
             if sch is not None:
                 mod, _ = self.repo.find_function(sch.qualname + '.__init__') if False else (self.repo.module(sch.qualname.rsplit('.', 1)[0]), None)
                 if mod.is_property(cls, attr):
-                    return self.call_repo(sch.qualname + '.' + attr, [base], {}, st, node)
+                    from . import calls
+                    return calls.call_repo(self, sch.qualname + '.' + attr, [base], {}, st, node)
                 if (cls + '.' + attr) in mod.functions:
                     return Val('func', None, ('bound', sch.qualname + '.' + attr, base))
             raise ContractError("attribute %s on %s not in schema" % (attr, cls))
